@@ -100,6 +100,38 @@ func (p *PIdent) Parse(lex *lexer.PeekingLexer) error {
 
 var identType = coreLexer.Symbols()["Ident"]
 
+// PPair is a grammar node implemented by user code that takes one token, demands "!" as the next one (taking it as well) and
+// otherwise FAILS after having consumed the first token - with an error that wraps participle.NextMatch (errors.Is finds the
+// sentinel, == does not).  Only the sentinel itself means "no match".
+type PPair struct {
+	W string
+}
+
+type pairError struct {
+	pos lexer.Position
+	msg string
+}
+
+func (e *pairError) Error() string            { return participle.FormatError(e) }
+func (e *pairError) Message() string          { return e.msg }
+func (e *pairError) Position() lexer.Position { return e.pos }
+func (e *pairError) Unwrap() error            { return participle.NextMatch }
+
+func (p *PPair) Parse(lex *lexer.PeekingLexer) error {
+	t := lex.Peek()
+	if t.EOF() {
+		return participle.NextMatch
+	}
+	lex.Next()
+	n := lex.Peek()
+	if n.EOF() || n.Value != "!" {
+		return &pairError{pos: n.Pos, msg: "pair: \"!\" expected"}
+	}
+	lex.Next()
+	p.W = t.Value
+	return nil
+}
+
 // PWord is a grammar node implemented by user code (participle.Parseable): it takes exactly one token with Next().
 type PWord struct {
 	W string
@@ -192,6 +224,8 @@ func buildWith(g *gGrammar, k int, extra ...participle.Option) (b *built, err er
 				t = reflect.SliceOf(numTypes[strings.TrimSuffix(kind, "s")])
 			case "unode2":
 				t = reflect.TypeOf(&PIdent{})
+			case "unode3":
+				t = reflect.TypeOf(&PPair{})
 			case "node":
 				t = reflect.PtrTo(types[arg])
 			case "nodes":
@@ -383,6 +417,10 @@ func canon(names map[reflect.Type]string, v reflect.Value, toks map[lexer.Positi
 		}
 		if v.Type() == reflect.TypeOf(PIdent{}) {
 			fmt.Fprintf(sb, "PIdent{W=%q}", v.Field(0).String())
+			return
+		}
+		if v.Type() == reflect.TypeOf(PPair{}) {
+			fmt.Fprintf(sb, "PPair{W=%q}", v.Field(0).String())
 			return
 		}
 		if v.Type() == reflect.TypeOf(PWord{}) {
@@ -875,6 +913,8 @@ func traceLines(text string) string {
 			kind = "union"
 		case strings.HasSuffix(gs, "PIdent"):
 			kind = "user2"
+		case strings.HasSuffix(gs, "PPair"):
+			kind = "user3"
 		case strings.HasSuffix(gs, "PWord") || gs == "CIface":
 			kind = "user"
 		}
